@@ -14,6 +14,7 @@ type StreamCfg struct {
 	MaxDepth   int  // nesting depth of generated message payloads
 	Unknown    bool // interleave unknown records (all wire types, groups)
 	Canonical  bool // no duplication of singular fields / no padding: "plain" values
+	MapBurst   int  // >0: prefer map-bearing fields and emit up to MapBurst entries per pick
 	// Avoid holds known-finding classes the generator must steer away from
 	// (see known_findings.json). Each avoided draw is counted in Excluded.
 	Avoid    map[string]bool
@@ -236,16 +237,27 @@ func (c *StreamCfg) GenStream(t *rapid.T, md protoreflect.MessageDescriptor, dep
 			continue
 		}
 		fd := fds.Get(rapid.IntRange(0, fds.Len()-1).Draw(t, "field"))
+		if c.MapBurst > 0 {
+			if mf := mapish(md); len(mf) > 0 && rapid.IntRange(0, 2).Draw(t, "mapbias") != 0 {
+				fd = mf[rapid.IntRange(0, len(mf)-1).Draw(t, "mapfield")]
+			}
+		}
 		num := fd.Number()
 		switch {
 		case fd.IsMap():
 			if depth >= c.MaxDepth && fd.MapValue().Message() != nil {
 				continue
 			}
-			c.label("map")
-			body := c.mapEntry(t, fd, depth)
-			b = c.tag(t, b, num, protowire.BytesType)
-			b = c.lenPrefixed(t, b, body)
+			burst := 1
+			if c.MapBurst > 0 {
+				burst = rapid.IntRange(1, c.MapBurst).Draw(t, "burst")
+			}
+			for e := 0; e < burst; e++ {
+				c.label("map")
+				body := c.mapEntry(t, fd, depth)
+				b = c.tag(t, b, num, protowire.BytesType)
+				b = c.lenPrefixed(t, b, body)
+			}
 		case fd.IsList() && fd.Message() == nil && fd.Kind() != protoreflect.StringKind && fd.Kind() != protoreflect.BytesKind:
 			// repeated scalar: packed run or single unpacked element, whatever
 			// the declaration says
@@ -447,4 +459,47 @@ func (c *StreamCfg) unknownRecordNum(t *rapid.T, b []byte, num protowire.Number,
 		}
 		return protowire.AppendTag(b, num, protowire.EndGroupType)
 	}
+}
+
+var mapishCache = map[protoreflect.FullName][]protoreflect.FieldDescriptor{}
+
+// ContainsMap reports whether md declares a map field, directly or through
+// message-typed fields.
+func ContainsMap(md protoreflect.MessageDescriptor) bool {
+	return containsMap(md, map[protoreflect.FullName]bool{})
+}
+
+func containsMap(md protoreflect.MessageDescriptor, seen map[protoreflect.FullName]bool) bool {
+	if seen[md.FullName()] {
+		return false
+	}
+	seen[md.FullName()] = true
+	fds := md.Fields()
+	for i := 0; i < fds.Len(); i++ {
+		fd := fds.Get(i)
+		if fd.IsMap() {
+			return true
+		}
+		if fd.Message() != nil && containsMap(fd.Message(), seen) {
+			return true
+		}
+	}
+	return false
+}
+
+// mapish lists the fields of md that are maps or lead to maps.
+func mapish(md protoreflect.MessageDescriptor) []protoreflect.FieldDescriptor {
+	if v, ok := mapishCache[md.FullName()]; ok {
+		return v
+	}
+	var out []protoreflect.FieldDescriptor
+	fds := md.Fields()
+	for i := 0; i < fds.Len(); i++ {
+		fd := fds.Get(i)
+		if fd.IsMap() || (fd.Message() != nil && ContainsMap(fd.Message())) {
+			out = append(out, fd)
+		}
+	}
+	mapishCache[md.FullName()] = out
+	return out
 }
